@@ -77,13 +77,34 @@ func propC01(run *Run, n int) {
 		a, b := cfg.Pair(r)
 		a, b = withVoid(r, a, b)
 		addC01Case(run, ch.o, ch.label, a, b)
+		if r.Chance(1, 8) {
+			// chained use of the API: the document a Patch returned (its array nodes carry the Go dynamic
+			// types jsonList / jsonSet / jsonMultiset) is diffed against a document read from text
+			_, outcome, _ := implDiffPatch(ch.o, a.Wire(), b.Wire())
+			if strings.HasPrefix(outcome, "ok ") {
+				if pv, err := ParseWire(outcome[3:]); err == nil && pv.K != KVoid {
+					c := cfg.Mutate(r, b, 3)
+					addC01CaseT(run, ch.o, ch.label+"+patched", pv, c, false)
+				}
+			}
+		}
 	}
 }
 
 func addC01Case(run *Run, o OptSet, label string, a, b *Val) {
+	addC01CaseT(run, o, label, a, b, true)
+}
+
+// withOracle = false: only the tie between model and implementation is checked (documents outside the
+// property's quantifier: array nodes with Go dynamic types, as a previous Patch returns them)
+func addC01CaseT(run *Run, o OptSet, label string, a, b *Val, withOracle bool) {
 	aw, bw := a.Wire(), b.Wire()
 	dw, outcome, eq := implDiffPatch(o, aw, bw)
-	c := Case{Recipe: Recipe{"c01", []string{o.Wire(), aw, bw}}, Desc: map[string]string{"options": o.Name(), "a": a.Human(), "b": b.Human(), "a_wire": aw, "b_wire": bw, "opts_wire": o.Wire(), "impl_diff": dw, "impl_patch": outcome}}
+	rname := "c01"
+	if !withOracle {
+		rname = "c01t"
+	}
+	c := Case{Recipe: Recipe{rname, []string{o.Wire(), aw, bw}}, Desc: map[string]string{"options": o.Name(), "a": a.Human(), "b": b.Human(), "a_wire": aw, "b_wire": bw, "opts_wire": o.Wire(), "impl_diff": dw, "impl_patch": outcome}}
 	c.Nontrivial = hunkCount(dw) > 0
 	c.Sig = o.Wire() + "|" + aw + "|" + bw
 	c.Probes = append(c.Probes, Probe{Kind: "corr", Rel: "Diff;Patch = diffM;patchM", Line: fmt.Sprintf("diffpatch %s %s %s", o.Wire(), aw, bw), Want: dw + " " + outcome})
@@ -93,7 +114,9 @@ func addC01Case(run *Run, o OptSet, label string, a, b *Val) {
 	} else if !eq {
 		d = "fail patched document does not Equal b"
 	}
-	c.Probes = append(c.Probes, Probe{Kind: "oracle", Rel: "C01 patch(a,diff(a,b)) ≈ b (impl outputs, spec Equiv)", Line: fmt.Sprintf("c01 %s %s %s %s %s", o.Wire(), aw, bw, boolWire(d == "ok"), outcome)})
+	if withOracle {
+		c.Probes = append(c.Probes, Probe{Kind: "oracle", Rel: "C01 patch(a,diff(a,b)) ≈ b (impl outputs, spec Equiv)", Line: fmt.Sprintf("c01 %s %s %s %s %s", o.Wire(), aw, bw, boolWire(d == "ok"), outcome)})
+	}
 	run.Count("opts:" + label)
 	run.Count("hunks:" + sizeBucket(hunkCount(dw)))
 	run.Count("size_a:" + sizeBucket(a.Size()))
@@ -119,4 +142,7 @@ func mustOpts(w string) OptSet {
 
 func init() {
 	recipes["c01"] = func(run *Run, a []string) { addC01Case(run, mustOpts(a[0]), "corpus", mustVal(a[1]), mustVal(a[2])) }
+	recipes["c01t"] = func(run *Run, a []string) {
+		addC01CaseT(run, mustOpts(a[0]), "corpus", mustVal(a[1]), mustVal(a[2]), false)
+	}
 }
